@@ -359,14 +359,18 @@ Proof. apply filter_sorted. apply zseq_sorted. Qed.
 Lemma set_bits_In v b : In b (set_bits v) <-> 0 <= b < 64 /\ Z.testbit v b = true.
 Proof. unfold set_bits. rewrite filter_In, zseq_In. change (Z.of_nat 64) with 64. intuition lia. Qed.
 
+(* stated for an abstract list of bits: conversion must never unfold [set_bits v] (64 stuck tests) *)
+Lemma scan_pairs_In d bits lb : In lb (scan_pairs d bits) <-> exists b, In b bits /\ In lb (pick d b).
+Proof. unfold scan_pairs. apply in_flat_map. Qed.
+
 Lemma scan_In d v lb : wf_group d ->
   In lb (scan_pairs d (set_bits v)) <-> In lb d /\ Z.testbit v (snd lb) = true.
 Proof.
-  intros (Hl & Hb & Hr). split.
-  - intros H. apply in_flat_map in H. destruct H as (b & Hbin & Hp). apply pick_In in Hp.
-    destruct Hp as [Hd Hs]. subst b. apply set_bits_In in Hbin. split; [exact Hd|apply Hbin].
-  - intros [Hd Ht]. apply in_flat_map. exists (snd lb). split.
-    + apply set_bits_In. split; [|exact Ht]. rewrite Forall_forall in Hr. apply (Hr lb Hd).
+  intros (Hl & Hb & Hr). generalize (set_bits_In v). generalize (set_bits v). intros bits Hbits. split.
+  - intros H. apply scan_pairs_In in H. destruct H as (b & Hbin & Hp). apply pick_In in Hp.
+    destruct Hp as [Hd Hs]. subst b. apply Hbits in Hbin. split; [exact Hd|apply Hbin].
+  - intros [Hd Ht]. apply scan_pairs_In. exists (snd lb). split.
+    + apply Hbits. split; [|exact Ht]. rewrite Forall_forall in Hr. apply (Hr lb Hd).
     + unfold pick.
       destruct (find_exists (fun lb0 => snd lb0 =? snd lb) d lb Hd (Z.eqb_refl _)) as (y & Hy).
       rewrite Hy. apply find_some in Hy. destruct Hy as [Hyd Hys]. apply Z.eqb_eq in Hys.
